@@ -428,6 +428,19 @@ impl<'a> Bisim<'a> {
                 let Some(e) = seq_elem(self.reg, f[0]) else { return bad_shape(trail) };
                 let kv = match self.reg.resolve(e).map(|t| &t.type_def) {
                     Some(TypeDef::Tuple(tu)) if tu.fields.len() == 2 => (tu.fields[0].id, tu.fields[1].id),
+                    // `BTreeMap<K, PhantomData<T>>`: scale-info drops PhantomData members of the
+                    // `(K, V)` tuple, the element is the one-element tuple `(K,)` (nothing of V is
+                    // on the wire); the code argument for the dropped side must be a PhantomData
+                    Some(TypeDef::Tuple(tu)) if tu.fields.len() == 1 => {
+                        let (kept, dropped, label) = if matches!(self.cl.classify(&args[1]), CHead::Phantom(_)) { (0, 1, "BTreeMap.key") } else { (1, 0, "BTreeMap.value") };
+                        if !matches!(self.cl.classify(&args[dropped]), CHead::Phantom(_)) {
+                            return div("head-mismatch", trail, format!("registry BTreeMap element has one member but neither code argument is a PhantomData: `{}`", nows(&ts(c))));
+                        }
+                        trail.push(label.into());
+                        self.rel_in(tu.fields[0].id, &args[kept], trail)?;
+                        trail.pop();
+                        return Ok(());
+                    }
                     _ => return bad_shape(trail),
                 };
                 trail.push("BTreeMap.key".into());
